@@ -37,10 +37,21 @@ class Conjugate(Sampler):
     @Sampler.target.setter # Overwrite the target setter to set the conjugate pair
     def target(self, value):
         """ Set the target density. Runs validation of the target. """
+        previous_target = getattr(self, "_target", None)
+        previous_pair = getattr(self, "_conjugatepair", None)
         self._target = value
         if self._target is not None:
-            self._set_conjugatepair()
-            self.validate_target()
+            try:
+                self._set_conjugatepair()
+                self.validate_target()
+            except Exception:
+                # A refused target must not stay in the sampler: restore the one it was validated for
+                self._target = previous_target
+                if previous_pair is not None:
+                    self._conjugatepair = previous_pair
+                elif hasattr(self, "_conjugatepair"):
+                    del self._conjugatepair
+                raise
 
     def validate_target(self):
         self._ensure_target_is_posterior()
